@@ -1,8 +1,6 @@
-// Package c05 decides property C05 (SM2 curve and scalar-field arithmetic agree with exact
-// integer arithmetic; strict point decoders) by executing sm2ec.P256(), the nistec-style point
-// type behind it (through verifhook), ecdh.P256() and the sm2 key constructors next to the
-// affine big-integer reference of verifh/ref/ec.
 package c05
+
+// Scalar multiplication workloads (basemult, scalarmult, combined) and the shared set-up.
 
 import (
 	"bytes"
